@@ -283,6 +283,8 @@ class structarr(ndarray):
     def __getitem__(self, k):
         if isinstance(k, str):
             f = self.fields[k]
+            if f.zero and self.owner == 'lib' and not self.is_view:
+                return FieldFill(self, k)          # chunk[key][a:b] = block: a fresh field filled block by block
             if f.zero or f.bcast:
                 raise StubGap('reading a field of a freshly built chunk')
             return ndarray(self.owner, f.column, f.a, f.a + self.n, f.dt, f.width, True)
@@ -333,6 +335,59 @@ class structarr(ndarray):
     def copy(self):
         nf = {nm: Field('lib', f.column, f.a, f.dt, f.width, f.bcast, f.src_dt, f.zero) for nm, f in self.fields.items()}
         return structarr('lib', self.n, self.dtype, nf, False, self.a0)
+
+
+class FieldFill:
+    """``chunk[key]`` of a fresh (np.zeros) chunk, used as the target of block-wise slice assignments
+    ``chunk[key][lo:hi] = block``.  Contract: blocks arrive in ascending, gap-free order (anything else: StubGap); as
+    long as each block continues the source rows of the previous one the field stays ONE provenance range (column, first
+    row); a block that does not continue them turns the field into '<pieces>' (no provenance - every check on it fails
+    and the replay on the real package decides).  The field counts as filled once the blocks cover all rows."""
+
+    def __init__(self, arr, key):
+        self.arr, self.key = arr, key
+
+    def __setitem__(self, k, v):
+        if not isinstance(k, slice) or k.step is not None:
+            raise StubGap('FieldFill: only slice assignment is modelled')
+        arr = self.arr
+        n = arr.n
+        lo = 0 if k.start is None else k.start
+        hi = n if k.stop is None else k.stop
+        if lo < 0 or hi < 0:
+            raise StubGap('FieldFill: negative bounds')
+        hi = min(hi, n)
+        st = arr.__dict__.setdefault('_fill', {}).get(self.key)
+        filled = 0 if st is None else st[0]
+        if lo != filled:
+            raise StubGap('FieldFill: blocks out of order')
+        if not isinstance(v, ndarray) or isinstance(v, structarr):
+            raise StubGap('assigning a non-array to a field')
+        m = v.b - v.a
+        if m != hi - lo:
+            if m == 1:
+                raise StubGap('FieldFill: broadcast block')
+            raise ValueError('could not broadcast input array')
+        w = arr.dtype.width(self.key)
+        if (v.width or None) != (w or None):
+            raise ValueError('could not broadcast input array (shape mismatch)')
+        if st is None:
+            st = [hi, v.column, v.a, v.dtype]
+        else:
+            if v.column != st[1] or v.a != st[2] + lo:
+                st[1] = '<pieces>'
+            st[0] = hi
+        arr._fill[self.key] = st
+        if st[0] >= n:
+            arr.fields[self.key] = Field('lib', st[1], st[2], arr.dtype[self.key], w, False, st[3])
+
+    def __getitem__(self, k):
+        raise StubGap('reading a field of a freshly built chunk')
+
+    def __getattr__(self, name):
+        if name.startswith('__'):
+            raise AttributeError(name)
+        raise StubGap(f'FieldFill.{name} is not modelled')
 
 
 def zeros(n, dtype=None):
